@@ -171,6 +171,8 @@ def main(argv=None):
             print(json.dumps(c, default=str))
         return 0
     budget = float(os.environ.get("VERIF_BUDGET_S", "0")) or getattr(mod, "BUDGET", {}).get(tier, 240 if tier == "quick" else 3600)
+    if tier == "quick" and not os.environ.get("VERIF_BUDGET_S"):
+        budget = max(budget, 480.0)  # the quick tiers take 15-130 s on idle cores; the cap only matters on a heavily loaded machine
     hard = getattr(mod, "HARD_TIMEOUT", {}).get(tier) if isinstance(getattr(mod, "HARD_TIMEOUT", None), dict) else None
     hard = hard or (150 if tier == "quick" else 400)
 
